@@ -15,6 +15,7 @@ The oracle is a small reference written from the module docstring: replay entrie
 from __future__ import annotations
 
 import ast
+import copy
 import itertools
 from collections import Counter
 from pathlib import Path
@@ -595,6 +596,20 @@ def _rand_result(rng, profile):
             elif u < 0.55:
                 rng.shuffle(sh)
         shots.append(sh)
+    if rng.random() < 0.12 and shots:
+        # a twin of an earlier shot: same tags and shapes, one bit replaced by the float that compares (and
+        # hashes) equal to it: the later shot must still be rejected (a value that is not a bit)
+        src = copy.deepcopy(rng.choice(shots))
+        spots = [(i, None) for i, (_, v) in enumerate(src) if type(v) in (int, bool) and v in (0, 1)] + [
+            (i, j) for i, (_, v) in enumerate(src) if isinstance(v, list) for j, x in enumerate(v)
+            if type(x) in (int, bool) and x in (0, 1)]
+        if spots:
+            i, j = rng.choice(spots)
+            if j is None:
+                src[i][1] = float(src[i][1])
+            else:
+                src[i][1][j] = float(src[i][1][j])
+            shots.append(src)
     return {"shots": shots}
 
 
